@@ -390,6 +390,36 @@ impl World {
                 self.stats.borrow_mut().bump("callback_allocated");
             }
             M::Collect => self.collect(),
+            M::CollectCatch => {
+                // the callback catches a panic of the collection it requested and carries on
+                let (fd, id, n0) = {
+                    let m = self.m.borrow();
+                    (m.frames.len(), m.inflight.len(), m.objs.len())
+                };
+                let r = std::panic::catch_unwind(std::panic::AssertUnwindSafe(|| self.collect()));
+                if let Err(p) = r {
+                    if !p.is::<Injected>() {
+                        std::panic::resume_unwind(p);
+                    }
+                    let mut m = self.m.borrow_mut();
+                    m.frames.truncate(fd);
+                    m.inflight.truncate(id);
+                    m.fired_this_op = false; // contained by the program itself: the operation returns normally
+                    m.caught_in_callback = true;
+                    // creations that were under way inside the unwound collection never came to life
+                    for i in n0..m.objs.len() {
+                        if matches!(m.objs[i].status, Status::Pending | Status::UnderConstruction) {
+                            m.objs[i].status = Status::Gone;
+                        }
+                    }
+                    drop(m);
+                    self.stats.borrow_mut().bump("fault_caught_inside_callback");
+                    // the collector must be idle again as seen from this callback
+                    if let Some(true) = self.is_tracing_now() {
+                        self.fail("O-CONTAIN.idle", "is_tracing() is true right after a callback caught the panic of the collection it had requested".to_string());
+                    }
+                }
+            }
             M::TryUnwrapRoot => {
                 if let Some(i) = self.resolve_root(a[0], |_, _| true) {
                     self.try_unwrap_root(i);
@@ -483,6 +513,12 @@ impl World {
                         continue;
                     }
                     if let Some(i) = self.resolve_root(mini.a[1], |_, _| true) {
+                        // clones made earlier by this closure are not in the mirror yet: count them by hand
+                        let o = self.m.borrow().root_obj[i].unwrap();
+                        let pending = sets.iter().filter(|s| s.2 == o).count() as u32;
+                        if World::count(&self.m.borrow(), o) + pending >= MAX_STRONG {
+                            continue;
+                        }
                         if let Some((c, t)) = self.clone_root(i) {
                             sets.push((mini.a[0] as u8, c, t));
                         }
